@@ -371,10 +371,25 @@ def _psig(v):
         return ("schemas", tuple(canon.canon(x) for x in v))
     if isinstance(v, type):
         return ("type", v.__name__)
+    if isinstance(v, (list, dict)) and len(v) > 50:
+        # (a 1001-key dict reported by 1001 errors: one structural signature per object, not per error)
+        key = id(v)
+        hit = _BIG.get(key)
+        if hit is None or hit[0] is not v:
+            if len(_BIG) > 8:
+                _BIG.clear()
+            try:
+                hit = _BIG[key] = (v, ("v", canon.atom(v)))
+            except Exception:  # noqa
+                hit = _BIG[key] = (v, ("id", id(v)))
+        return hit[1]
     try:
         return ("v", canon.atom(v))
     except Exception:  # noqa
         return ("id", id(v))
+
+
+_BIG = {}
 
 
 def _expected_composition(spec, S, v):
